@@ -188,3 +188,59 @@ impl Dialed {
         mux.run(ctx, self.0).await
     }
 }
+
+// ---------------------------------------------------------------------------------------------
+// A scripted gossip peer pushing validator address announcements
+
+pub type AddrBatch = Vec<Arc<validator::Signed<validator::NetAddress>>>;
+
+struct AddrSink(Arc<std::sync::Mutex<Vec<AddrBatch>>>);
+
+#[async_trait::async_trait]
+impl crate::rpc::Handler<crate::rpc::push_validator_addrs::Rpc> for &AddrSink {
+    fn max_req_size(&self) -> usize {
+        100 * zksync_protobuf::kB
+    }
+    async fn handle(&self, _ctx: &ctx::Ctx, req: crate::rpc::push_validator_addrs::Req) -> anyhow::Result<()> {
+        self.0.lock().unwrap().push(req.0);
+        Ok(())
+    }
+}
+
+/// Runs the real `rpc::Service` over an authenticated connection as a peer that pushes address batches one at a time:
+/// `next(result of the previous push)` supplies the next batch (`None` = hang up). Every batch the node pushes to this
+/// peer is appended to `received`. Returns how the connection ended.
+pub async fn push_addrs(ctx: &ctx::Ctx, conn: Dialed, next: Arc<dyn Fn(Option<bool>) -> Option<AddrBatch> + Send + Sync>, received: Arc<std::sync::Mutex<Vec<AddrBatch>>>) -> String {
+    use zksync_concurrency::{limiter, scope};
+    let sink = AddrSink(received);
+    let client = crate::rpc::Client::<crate::rpc::push_validator_addrs::Rpc>::new(ctx, limiter::Rate::INF);
+    let res: Result<(), ctx::Error> = scope::run!(ctx, |ctx, s| async {
+        let service = crate::rpc::Service::new()
+            .add_client(&client)
+            .add_server::<crate::rpc::push_validator_addrs::Rpc>(ctx, &sink, limiter::Rate::INF)
+            .add_server(ctx, crate::rpc::ping::Server, crate::rpc::ping::RATE);
+        s.spawn::<()>(async {
+            let mut prev = None;
+            while let Some(batch) = next(prev) {
+                let r = client.call(ctx, &crate::rpc::push_validator_addrs::Req(batch), zksync_protobuf::kB).await;
+                prev = Some(r.is_ok());
+                if r.is_err() {
+                    next(prev);
+                    break;
+                }
+            }
+            // hang up: ending this scope's main tasks cancels the service
+            Err(ctx::Error::Internal(anyhow::format_err!("script finished")))
+        });
+        service.run(ctx, conn.0).await.map_err(|e| ctx::Error::Internal(anyhow::format_err!("{e}")))
+    })
+    .await;
+    format!("{res:?}").lines().next().unwrap_or("").chars().take(160).collect()
+}
+
+/// The node's validator address book.
+pub fn addr_book(net: &crate::Network) -> Vec<(validator::PublicKey, Arc<validator::Signed<validator::NetAddress>>)> {
+    let mut v: Vec<_> = net.gossip.validator_addrs.current().iter().map(|(k, v)| (k.clone(), v.clone())).collect();
+    v.sort_by(|a, b| a.0.cmp(&b.0));
+    v
+}
